@@ -26,17 +26,28 @@ EXTENDS Dyadic
 Vec(len, F(_)) == [i \in 1..len |-> F(i)] \o <<>>
 MatOf(r, c, F(_, _)) == Vec(r, LAMBDA i : Vec(c, LAMBDA j : F(i, j)))
 
+\* the same values as Add / Sub / Mul of module Dyadic, with short cuts for zero and integer operands (most entries of the sparse
+\* systems are zero or integers; TLC evaluates the general normalisation an order of magnitude slower)
+IsZero(a) == a[1] = 0 /\ a[2] = 0
+FMul(a, b) == IF IsZero(a) THEN (IF IsExact(b) THEN Zero ELSE Inexact)
+              ELSE IF IsZero(b) THEN (IF IsExact(a) THEN Zero ELSE Inexact)
+              ELSE IF a[2] = 0 /\ b[2] = 0 THEN <<a[1] * b[1], 0>> ELSE Mul(a, b)
+FAdd(a, b) == IF a[2] = 0 /\ b[2] = 0 THEN <<a[1] + b[1], 0>> ELSE IF IsZero(a) THEN b ELSE IF IsZero(b) THEN a ELSE Add(a, b)
+FSub(a, b) == IF a[2] = 0 /\ b[2] = 0 THEN <<a[1] - b[1], 0>> ELSE IF IsZero(b) THEN a ELSE Sub(a, b)
+RECURSIVE FSumTo(_, _)
+FSumTo(F(_), k) == IF k = 0 THEN Zero ELSE FAdd(FSumTo(F, k - 1), F(k))
+
 ZeroVec(len) == Vec(len, LAMBDA i : Zero)
 UnitVec(len, k) == Vec(len, LAMBDA i : IF i = k THEN One ELSE Zero)
 IdMat(nn) == MatOf(nn, nn, LAMBDA i, j : IF i = j THEN One ELSE Zero)
-RVAdd(u, v) == Vec(Len(u), LAMBDA i : Add(u[i], v[i]))
-RVSub(u, v) == Vec(Len(u), LAMBDA i : Sub(u[i], v[i]))
-RVScale(a, v) == Vec(Len(v), LAMBDA i : Mul(a, v[i]))
-RVMul(u, v) == Vec(Len(u), LAMBDA i : Mul(u[i], v[i]))
-DDot(u, v) == DSumTo(LAMBDA i : Mul(u[i], v[i]), Len(u))
+RVAdd(u, v) == Vec(Len(u), LAMBDA i : FAdd(u[i], v[i]))
+RVSub(u, v) == Vec(Len(u), LAMBDA i : FSub(u[i], v[i]))
+RVScale(a, v) == Vec(Len(v), LAMBDA i : FMul(a, v[i]))
+RVMul(u, v) == Vec(Len(u), LAMBDA i : FMul(u[i], v[i]))
+DDot(u, v) == FSumTo(LAMBDA i : FMul(u[i], v[i]), Len(u))
 \* r x c matrix times vector of length c; product of an r x k and a k x c matrix
-RMatVec(r, c, A, x) == Vec(r, LAMBDA i : DSumTo(LAMBDA j : Mul(A[i][j], x[j]), c))
-RMatMul(r, k, c, A, B) == MatOf(r, c, LAMBDA i, j : DSumTo(LAMBDA l : Mul(A[i][l], B[l][j]), k))
+RMatVec(r, c, A, x) == Vec(r, LAMBDA i : FSumTo(LAMBDA j : FMul(A[i][j], x[j]), c))
+RMatMul(r, k, c, A, B) == MatOf(r, c, LAMBDA i, j : FSumTo(LAMBDA l : FMul(A[i][l], B[l][j]), k))
 MatExact(r, c, A) == \A i \in 1..r : \A j \in 1..c : IsExact(A[i][j])
 SubVec(v, from, len) == Vec(len, LAMBDA i : v[from + i - 1])
 
@@ -60,10 +71,11 @@ GJ(nn, a, p, k) ==
     IN IF piv[1] = 0 THEN [st |-> "zero", a |-> a]
        ELSE IF ~IsPow2(piv) THEN [st |-> "inexact", a |-> a]
        ELSE LET rinv == Div(One, piv)
-                rowp == Vec(nn, LAMBDA j : Mul(IF j = pk THEN One ELSE a[pk][j], rinv))
+                rowp == Vec(nn, LAMBDA j : FMul(IF j = pk THEN One ELSE a[pk][j], rinv))
                 a2 == Vec(nn, LAMBDA i : IF i = pk THEN rowp
                             ELSE LET f == a[i][pk] IN
-                                 Vec(nn, LAMBDA j : Sub(IF j = pk THEN Zero ELSE a[i][j], Mul(rowp[j], f))))
+                                 IF IsZero(f) THEN a[i]         \* nothing to eliminate in this row
+                                 ELSE Vec(nn, LAMBDA j : FSub(IF j = pk THEN Zero ELSE a[i][j], FMul(rowp[j], f))))
             IN GJ(nn, a2, p2, k + 1)
 
 Inverse(nn, M) == GJ(nn, M, Vec(nn, LAMBDA i : i), 1)
